@@ -272,6 +272,13 @@ def check_latlon(ctx, c):
     pos = np.array([lat, lon])
     f = _fields(rng, int(rng.integers(1, 3)), n, "continuous")
     edges = _edges(rng, pos, "continuous", latlon=True)
+    # great-circle distances come out of a chain of libm calls: kernel and oracle agree to the last bit almost always, but a tie
+    # with an edge cannot be decided across two implementations - edges on an attained distance are moved off it by 1e-9
+    # (inclusivity at exact ties is pinned by the exactly representable Euclidean lattices)
+    ds_ll = np.array([ov.dist_haversine(pos.tolist(), i, j) for i in range(n) for j in range(i + 1, n)] or [1.0])
+    for k_ in range(len(edges)):
+        if edges[k_] > 0 and np.min(np.abs(ds_ll - edges[k_])) <= 1e-13 * edges[k_]:
+            edges[k_] *= 1.0 + 1e-9
     kind = "m" if c["est"] == "matheron" else "c"
     want_v, want_c = ov.unstructured(f.tolist(), edges.tolist(), pos.tolist(), kind=kind, distance="h")
     ctx.event("pairs_enumerated", n * (n - 1) // 2)
